@@ -27,7 +27,7 @@ SHARDS = {"quick": 8, "thorough": 16}
 TIMEOUT = {"quick": 900, "thorough": 5400}
 DECIDING = ["M1_residual_truthful", "M2_flag_sound", "M3_history_nonincreasing", "M3_history_truthful", "M4_cycle_optimal", "M5_solves_within_n_cycles",
             "M6_same_solution", "zero_rhs"]
-MUST_REACH = ["gmres:lucky_breakdown", "gmres:lu_fallback"]
+MUST_REACH = ["gmres:lucky_breakdown", "gmres:lu_fallback", "stagnation:cycled_past_invariance"]
 
 EPS = refq.EPS
 CLASSES = ["generic", "herm_def", "herm_indef", "unitary", "scaled_identity", "identity_rank1", "identity_rank2", "upper_tri",
@@ -64,6 +64,15 @@ def cases(tier, seed):
         for cb in (1e-8, 1e-4, 1e5):
             out.append({"kind": "scaling", "cls": f"rhs_scaling:{cb:g}", "n": n, "c": 1.0, "cb": cb, "idx": idx, "seed": seed})
             idx += 1
+    # identity plus a LARGE low-rank term (norm 1e3 .. 1e7): the Krylov space is invariant after r + 1 vectors, but the sub-diagonal entry
+    # that should vanish is round-off of the size of eps * ||A||, i.e. at the edge of what an exact-zero breakdown test sees.  The
+    # attainable residual (eps * kappa) is above the smallest in-domain tolerance, so the solver keeps cycling: the history has to stay
+    # at that plateau
+    for (n, reps_) in ((10, 1), (12, 2), (16, 2)) if tier == "quick" else ((8, 3), (12, 4), (16, 4), (20, 3), (24, 3)):
+        for rep in range(reps_):
+            for sig in (1e5, 1e7) if tier == "quick" else (1e3, 1e5, 1e6, 1e7):
+                out.append({"kind": "stagnation", "cls": "stagnation", "n": n, "sig": sig, "rank": 1 + (rep + n) % 2, "idx": idx, "seed": seed})
+                idx += 1
     for n in (1, 2, 4) if tier == "quick" else (1, 2, 3, 4, 6, 8):
         out.append({"kind": "lu_failpoint", "cls": "lu_failpoint", "n": n, "idx": idx, "seed": seed})
         idx += 1
@@ -160,23 +169,37 @@ def rho(A, x, b):
 
 
 def krylov_optimum(A, r, m):
-    """min over y in H^m of ||r - A K y||_F with K = [r, A r, ..., A^{m-1} r] (right quaternion span), via the complex adjoint."""
-    n = A.shape[0]
-    cols = []
+    """(narrow, wide) values of min over y in H^m of ||r - A K y||_F, K an ORTHONORMAL basis of the right quaternion span of r, A r, ..., A^{m-1} r.
+
+    The basis is built by Arnoldi with two passes of Gram-Schmidt (the raw power basis is too ill-conditioned beyond m ~ 8: a
+    least-squares solve on it under-estimates what the space contains and the clause "the iterate lies in the Krylov space" then
+    fires on correct iterates); the minimisation is a complex-adjoint least-squares problem with the conditioning of A.
+    When the space becomes numerically invariant, "narrow" stops there and "wide" keeps the round-off directions: optimality is
+    judged against the narrow space and membership against the wide one, so that neither clause depends on round-off directions."""
     v = r / max(refq.fro(r), 1e-300)
-    for _ in range(m):
-        cols.append(v)
-        v = refq.matmul(A, v)
-        nv = refq.fro(v)
-        if nv == 0:
+    cols = [v]
+    narrow = None
+    for _ in range(m - 1):
+        w = refq.matmul(A, cols[-1])
+        nw0 = refq.fro(w)
+        for _pass in range(2):
+            for u in cols:
+                h = refq.matmul(refq.herm(u), w)          # 1 x 1
+                w = w - refq.matmul(u, h)                  # right multiplication: right span
+        nw = refq.fro(w)
+        if nw == 0.0:
             break
-        v = v / nv
-    K = np.concatenate(cols, axis=1)
-    AK = refq.matmul(A, K)
-    M = embed.chi(AK)                    # 2n x 2m
+        if nw <= 1e-10 * max(nw0, 1e-300) and narrow is None:
+            narrow = len(cols)                             # (numerically) invariant from here on: further directions are round-off
+        cols.append(w / nw)
     rhs = embed.chi(r)[:, 0]
-    z, *_ = np.linalg.lstsq(M, rhs, rcond=1e-13)
-    return float(np.linalg.norm(rhs - M @ z))
+
+    def opt(k):
+        M = embed.chi(refq.matmul(A, np.concatenate(cols[:k], axis=1)))    # 2n x 2k
+        z, *_ = np.linalg.lstsq(M, rhs, rcond=None)
+        return float(np.linalg.norm(rhs - M @ z))
+    wide = opt(len(cols))
+    return (opt(narrow) if narrow is not None else wide), wide
 
 
 # --------------------------------------------------------------------------------------
@@ -291,11 +314,11 @@ def _system(spec, ctx, R):
                 if prec is None:
                     r_prev = b - refq.matmul(A, x_prev)
                     if refq.fro(r_prev) / refq.fro(b) > 1e-9:
-                        opt = krylov_optimum(A, r_prev, m) / refq.fro(b)
+                        opt, opt_wide = (v / refq.fro(b) for v in krylov_optimum(A, r_prev, m))
                         ctx.check("M4_cycle_optimal", r, opt * (1 + 1e-6) + floor, site=site, tags=tags,
                                   detail={"cycle": m, "residual": r, "krylov_optimum": opt, "n": n})
-                        ctx.check("M4_iterate_in_krylov_space", opt, r * (1 + 1e-6) + floor, site=site, tags=tags,
-                                  detail={"cycle": m, "residual": r, "krylov_optimum": opt})
+                        ctx.check("M4_iterate_in_krylov_space", opt_wide, r * (1 + 1e-6) + floor, site=site, tags=tags,
+                                  detail={"cycle": m, "residual": r, "krylov_optimum": opt_wide})
                     else:
                         ctx.skip("M4_cycle_optimal", "previous iterate already at rounding level")
                 # the residual after cycle m must not exceed the one after cycle m-1
@@ -323,6 +346,29 @@ def _system(spec, ctx, R):
                 x_prev = x
         if bi == 0 and spec["idx"] % 12 == 0:
             ctx.sample({"class": cls, "n": n, "kappa": kappa, "rhs": bname, "A": A, "b": b})
+
+
+def _stagnation(spec, ctx, R):
+    n, sig, rk = spec["n"], spec["sig"], spec["rank"]
+    rng = gen.rng_for(spec["seed"], "c04stag", spec["idx"])
+    u = refq.randq(rng, n, rk)
+    v = refq.randq(rng, n, rk)
+    A = refq.eye(n) + refq.matmul(u / refq.fro(u), refq.herm(v / refq.fro(v))) * sig
+    b = refq.randq(rng, n, 1)
+    kappa = embed.cond(A)
+    ctx.distinct("stagnation", A, b)
+    tags = ["identity_plus_large_rank%d" % rk, "rhs:generic"]
+    for tol in (1e-12, 1e-10):
+        site = "solve[none]:stagnation"
+        try:
+            x, inf = solve(R, A, b, tol=tol)
+        except Exception as e:
+            ctx.check("M5_solves_within_n_cycles", False, site=site, tags=tags, detail={"exception": repr(e)[:200], "tol": tol})
+            continue
+        hist = [float(h[2]) for h in (inf.get("residual_history") or [])]
+        if len(hist) > rk + 2:
+            ctx.hit("stagnation:cycled_past_invariance")
+        judge_solve(ctx, A, b, x, inf, tol=tol, cap=None, prec=None, kappa=kappa, site=site, tags=tags)
 
 
 def _zero_rhs(ctx, R, A, b, tags):
@@ -420,7 +466,7 @@ def _lu_failpoint(spec, ctx, R):
 
 
 def run_case(spec, ctx, R):
-    {"system": _system, "scaling": _scaling, "lu_failpoint": _lu_failpoint}[spec["kind"]](spec, ctx, R)
+    {"system": _system, "scaling": _scaling, "stagnation": _stagnation, "lu_failpoint": _lu_failpoint}[spec["kind"]](spec, ctx, R)
 
 
 # --------------------------------------------------------------------------------------
